@@ -30,7 +30,14 @@ def guess(S, n):
     return int(np.round(np.power(S, 1 / n)))
 
 
+def pre_build(ctx):
+    import gen_units
+    gen_units.pre_build(ctx, "translate_grid")
+
+
 def run(ctx):
+    import gen_units
+    gen_units.g_unit(ctx, "translate_grid")
     import gradient_free_optimizers as gfo
     from gradient_free_optimizers.optimizers.grid.diagonal_grid_search import DiagonalGridSearchOptimizer
     from gradient_free_optimizers.optimizers.grid.orthogonal_grid_search import OrthogonalGridSearchOptimizer
